@@ -8927,8 +8927,12 @@ bool SoPlexBase<R>::_parseSettingsLine(char* line, const int lineNumber)
    }
    else
    {
-      *line = '\0';
-      line++;
+      // the type may be the last token of the line: do not step over the end of the string
+      if(*line != '\0')
+      {
+         *line = '\0';
+         line++;
+      }
 
       // search for the ':' char in the line
       while(*line == ' ' || *line == '\t' || *line == '\r')
@@ -8970,8 +8974,12 @@ bool SoPlexBase<R>::_parseSettingsLine(char* line, const int lineNumber)
    }
    else
    {
-      *line = '\0';
-      line++;
+      // the name may be the last token of the line: do not step over the end of the string
+      if(*line != '\0')
+      {
+         *line = '\0';
+         line++;
+      }
 
       // search for the '=' char in the line
       while(*line == ' ' || *line == '\t' || *line == '\r')
@@ -9453,8 +9461,12 @@ bool SoPlexBase<R>::parseSettingsString(char* string)
    }
    else
    {
-      *line = '\0';
-      line++;
+      // the type may be the last token of the line: do not step over the end of the string
+      if(*line != '\0')
+      {
+         *line = '\0';
+         line++;
+      }
 
       // search for the ':' char in the line
       while(*line == ' ' || *line == '\t' || *line == '\r')
@@ -9494,8 +9506,12 @@ bool SoPlexBase<R>::parseSettingsString(char* string)
    }
    else
    {
-      *line = '\0';
-      line++;
+      // the name may be the last token of the line: do not step over the end of the string
+      if(*line != '\0')
+      {
+         *line = '\0';
+         line++;
+      }
 
       // search for the '=' char in the line
       while(*line == ' ' || *line == '\t' || *line == '\r')
